@@ -5,9 +5,16 @@
 //! `set_symbolic_order(true)` is in force every structural change re-draws a rotation and a
 //! direction for the iteration order (all n! orders for n <= 3 entries), so hash seed and bucket
 //! layout become solver variables; otherwise iteration follows insertion order.
+//!
+//! Storage is an inline array of `CAP` slots (no heap, no reallocation), which the bounded
+//! model checker tracks field by field. More than `CAP` entries is outside the bound and fails
+//! loudly.
 #![allow(missing_docs, dead_code, missing_debug_implementations, static_mut_refs)]
 use std::borrow::Borrow;
 use std::marker::PhantomData;
+
+/// Capacity of every abstract map / set (entries beyond it are outside the modelled bound).
+pub const CAP: usize = 4;
 
 static mut SYMBOLIC_ORDER: bool = false;
 /// Make iteration order a nondeterministic choice (see module docs).
@@ -31,7 +38,7 @@ impl Order {
             Order::ID
         }
     }
-    /// position `i` of the iteration -> index into the backing vector
+    /// position `i` of the iteration -> index into the backing array
     fn at(&self, i: usize, n: usize) -> usize {
         let j = if self.rev { n - 1 - i } else { i };
         let k = j + self.rot;
@@ -43,24 +50,67 @@ impl Order {
     }
 }
 
+fn slot<T>(a: &[Option<T>; CAP], i: usize) -> &T {
+    // explicit case split keeps accesses at constant offsets
+    let r = if i == 0 {
+        &a[0]
+    } else if i == 1 {
+        &a[1]
+    } else if i == 2 {
+        &a[2]
+    } else {
+        &a[3]
+    };
+    match r {
+        Some(t) => t,
+        None => panic!("verif_map: empty slot"),
+    }
+}
+fn slot_mut<T>(a: &mut [Option<T>; CAP], i: usize) -> &mut Option<T> {
+    if i == 0 {
+        &mut a[0]
+    } else if i == 1 {
+        &mut a[1]
+    } else if i == 2 {
+        &mut a[2]
+    } else {
+        &mut a[3]
+    }
+}
+/// remove slot `i` of the first `n`, shifting the rest down (keeps insertion order)
+fn remove_at<T>(a: &mut [Option<T>; CAP], i: usize, n: usize) -> T {
+    let out = slot_mut(a, i).take();
+    let mut j = i;
+    while j + 1 < n {
+        let next = slot_mut(a, j + 1).take();
+        *slot_mut(a, j) = next;
+        j += 1;
+    }
+    match out {
+        Some(t) => t,
+        None => panic!("verif_map: empty slot"),
+    }
+}
+
 pub struct HashMap<K, V, S = std::collections::hash_map::RandomState> {
-    items: Vec<(K, V)>,
+    items: [Option<(K, V)>; CAP],
+    n: usize,
     order: Order,
     _s: PhantomData<S>,
 }
 impl<K: Clone, V: Clone, S> Clone for HashMap<K, V, S> {
     fn clone(&self) -> Self {
-        HashMap { items: self.items.clone(), order: self.order, _s: PhantomData }
+        HashMap { items: self.items.clone(), n: self.n, order: self.order, _s: PhantomData }
     }
 }
 impl<K: std::fmt::Debug, V: std::fmt::Debug, S> std::fmt::Debug for HashMap<K, V, S> {
     fn fmt(&self, f: &mut std::fmt::Formatter<'_>) -> std::fmt::Result {
-        f.debug_map().entries(self.items.iter().map(|kv| (&kv.0, &kv.1))).finish()
+        f.debug_map().entries(self.iter()).finish()
     }
 }
 impl<K, V, S> Default for HashMap<K, V, S> {
     fn default() -> Self {
-        HashMap { items: Vec::new(), order: Order::ID, _s: PhantomData }
+        HashMap { items: [None, None, None, None], n: 0, order: Order::ID, _s: PhantomData }
     }
 }
 impl<K, V, S> HashMap<K, V, S> {
@@ -71,27 +121,36 @@ impl<K, V, S> HashMap<K, V, S> {
         Self::default()
     }
     pub fn len(&self) -> usize {
-        self.items.len()
+        self.n
     }
     pub fn is_empty(&self) -> bool {
-        self.items.is_empty()
+        self.n == 0
     }
     pub fn clear(&mut self) {
-        self.items.clear();
+        self.items = [None, None, None, None];
+        self.n = 0;
         self.order = Order::ID;
     }
     /// Draw a fresh iteration order (models "another process / another hash seed").
     pub fn redraw_order(&mut self) {
-        self.order = Order::draw(self.items.len());
+        self.order = Order::draw(self.n);
     }
     pub fn iter(&self) -> Iter<'_, K, V> {
-        Iter { items: &self.items, order: self.order, i: 0 }
+        Iter { items: &self.items, n: self.n, order: self.order, i: 0 }
     }
     pub fn keys(&self) -> Keys<'_, K, V> {
         Keys { it: self.iter() }
     }
     pub fn values(&self) -> Values<'_, K, V> {
         Values { it: self.iter() }
+    }
+    fn push(&mut self, k: K, v: V) -> usize {
+        assert!(self.n < CAP, "E6 bound: more than CAP entries in an abstract map");
+        let i = self.n;
+        *slot_mut(&mut self.items, i) = Some((k, v));
+        self.n += 1;
+        self.order = Order::draw(self.n);
+        i
     }
 }
 impl<K: PartialEq, V, S> HashMap<K, V, S> {
@@ -100,8 +159,8 @@ impl<K: PartialEq, V, S> HashMap<K, V, S> {
         K: Borrow<Q>,
     {
         let mut i = 0;
-        while i < self.items.len() {
-            if self.items[i].0.borrow() == k {
+        while i < CAP {
+            if i < self.n && slot(&self.items, i).0.borrow() == k {
                 return Some(i);
             }
             i += 1;
@@ -113,7 +172,7 @@ impl<K: PartialEq, V, S> HashMap<K, V, S> {
         K: Borrow<Q>,
     {
         match self.find(k) {
-            Some(i) => Some(&self.items[i].1),
+            Some(i) => Some(&slot(&self.items, i).1),
             None => None,
         }
     }
@@ -122,7 +181,10 @@ impl<K: PartialEq, V, S> HashMap<K, V, S> {
         K: Borrow<Q>,
     {
         match self.find(k) {
-            Some(i) => Some(&mut self.items[i].1),
+            Some(i) => match slot_mut(&mut self.items, i) {
+                Some(kv) => Some(&mut kv.1),
+                None => None,
+            },
             None => None,
         }
     }
@@ -134,10 +196,12 @@ impl<K: PartialEq, V, S> HashMap<K, V, S> {
     }
     pub fn insert(&mut self, k: K, v: V) -> Option<V> {
         match self.find(&k) {
-            Some(i) => Some(std::mem::replace(&mut self.items[i].1, v)),
+            Some(i) => match slot_mut(&mut self.items, i) {
+                Some(kv) => Some(std::mem::replace(&mut kv.1, v)),
+                None => None,
+            },
             None => {
-                self.items.push((k, v));
-                self.order = Order::draw(self.items.len());
+                self.push(k, v);
                 None
             }
         }
@@ -148,9 +212,10 @@ impl<K: PartialEq, V, S> HashMap<K, V, S> {
     {
         match self.find(k) {
             Some(i) => {
-                let v = self.items.remove(i).1;
-                self.order = Order::draw(self.items.len());
-                Some(v)
+                let kv = remove_at(&mut self.items, i, self.n);
+                self.n -= 1;
+                self.order = Order::draw(self.n);
+                Some(kv.1)
             }
             None => None,
         }
@@ -163,23 +228,23 @@ impl<K: PartialEq, V, S> HashMap<K, V, S> {
     }
 }
 pub struct Iter<'a, K, V> {
-    items: &'a Vec<(K, V)>,
+    items: &'a [Option<(K, V)>; CAP],
+    n: usize,
     order: Order,
     i: usize,
 }
 impl<'a, K, V> Iterator for Iter<'a, K, V> {
     type Item = (&'a K, &'a V);
     fn next(&mut self) -> Option<Self::Item> {
-        let n = self.items.len();
-        if self.i >= n {
+        if self.i >= self.n {
             return None;
         }
-        let kv = &self.items[self.order.at(self.i, n)];
+        let kv = slot(self.items, self.order.at(self.i, self.n));
         self.i += 1;
         Some((&kv.0, &kv.1))
     }
     fn size_hint(&self) -> (usize, Option<usize>) {
-        let r = self.items.len() - self.i;
+        let r = self.n - self.i;
         (r, Some(r))
     }
 }
@@ -190,7 +255,10 @@ pub struct Keys<'a, K, V> {
 impl<'a, K, V> Iterator for Keys<'a, K, V> {
     type Item = &'a K;
     fn next(&mut self) -> Option<&'a K> {
-        self.it.next().map(|kv| kv.0)
+        match self.it.next() {
+            Some(kv) => Some(kv.0),
+            None => None,
+        }
     }
     fn size_hint(&self) -> (usize, Option<usize>) {
         self.it.size_hint()
@@ -203,7 +271,10 @@ pub struct Values<'a, K, V> {
 impl<'a, K, V> Iterator for Values<'a, K, V> {
     type Item = &'a V;
     fn next(&mut self) -> Option<&'a V> {
-        self.it.next().map(|kv| kv.1)
+        match self.it.next() {
+            Some(kv) => Some(kv.1),
+            None => None,
+        }
     }
     fn size_hint(&self) -> (usize, Option<usize>) {
         self.it.size_hint()
@@ -218,32 +289,27 @@ impl<'a, K, V, S> IntoIterator for &'a HashMap<K, V, S> {
     }
 }
 pub struct IntoIter<K, V> {
-    items: Vec<Option<(K, V)>>,
+    items: [Option<(K, V)>; CAP],
+    n: usize,
     order: Order,
     i: usize,
 }
 impl<K, V> Iterator for IntoIter<K, V> {
     type Item = (K, V);
     fn next(&mut self) -> Option<(K, V)> {
-        let n = self.items.len();
-        if self.i >= n {
+        if self.i >= self.n {
             return None;
         }
-        let j = self.order.at(self.i, n);
+        let j = self.order.at(self.i, self.n);
         self.i += 1;
-        self.items[j].take()
+        slot_mut(&mut self.items, j).take()
     }
 }
 impl<K, V, S> IntoIterator for HashMap<K, V, S> {
     type Item = (K, V);
     type IntoIter = IntoIter<K, V>;
     fn into_iter(self) -> IntoIter<K, V> {
-        let order = self.order;
-        let mut items = Vec::with_capacity(self.items.len());
-        for kv in self.items {
-            items.push(Some(kv));
-        }
-        IntoIter { items, order, i: 0 }
+        IntoIter { items: self.items, n: self.n, order: self.order, i: 0 }
     }
 }
 impl<K: PartialEq, V, S> std::iter::FromIterator<(K, V)> for HashMap<K, V, S> {
@@ -276,21 +342,28 @@ pub struct VacantEntry<'a, K, V, S> {
 }
 impl<'a, K, V, S> OccupiedEntry<'a, K, V, S> {
     pub fn get(&self) -> &V {
-        &self.m.items[self.i].1
+        &slot(&self.m.items, self.i).1
     }
     pub fn get_mut(&mut self) -> &mut V {
-        &mut self.m.items[self.i].1
+        match slot_mut(&mut self.m.items, self.i) {
+            Some(kv) => &mut kv.1,
+            None => panic!("verif_map: empty slot"),
+        }
     }
     pub fn into_mut(self) -> &'a mut V {
-        &mut self.m.items[self.i].1
+        match slot_mut(&mut self.m.items, self.i) {
+            Some(kv) => &mut kv.1,
+            None => panic!("verif_map: empty slot"),
+        }
     }
 }
 impl<'a, K, V, S> VacantEntry<'a, K, V, S> {
     pub fn insert(self, v: V) -> &'a mut V {
-        self.m.items.push((self.k, v));
-        let n = self.m.items.len();
-        self.m.order = Order::draw(n);
-        &mut self.m.items[n - 1].1
+        let i = self.m.push(self.k, v);
+        match slot_mut(&mut self.m.items, i) {
+            Some(kv) => &mut kv.1,
+            None => panic!("verif_map: empty slot"),
+        }
     }
 }
 impl<'a, K, V, S> Entry<'a, K, V, S> {
@@ -307,11 +380,12 @@ impl<'a, K, V, S> Entry<'a, K, V, S> {
 
 #[derive(Clone, Debug)]
 pub struct HashSet<T> {
-    items: Vec<T>,
+    items: [Option<T>; CAP],
+    n: usize,
 }
 impl<T> Default for HashSet<T> {
     fn default() -> Self {
-        HashSet { items: Vec::new() }
+        HashSet { items: [None, None, None, None], n: 0 }
     }
 }
 impl<T: PartialEq> HashSet<T> {
@@ -319,39 +393,57 @@ impl<T: PartialEq> HashSet<T> {
         Self::default()
     }
     pub fn len(&self) -> usize {
-        self.items.len()
+        self.n
     }
-    pub fn contains(&self, t: &T) -> bool {
+    fn find(&self, t: &T) -> Option<usize> {
         let mut i = 0;
-        while i < self.items.len() {
-            if &self.items[i] == t {
-                return true;
+        while i < CAP {
+            if i < self.n && slot(&self.items, i) == t {
+                return Some(i);
             }
             i += 1;
         }
-        false
+        None
+    }
+    pub fn contains(&self, t: &T) -> bool {
+        self.find(t).is_some()
     }
     pub fn insert(&mut self, t: T) -> bool {
         if self.contains(&t) {
             false
         } else {
-            self.items.push(t);
+            assert!(self.n < CAP, "E6 bound: more than CAP entries in an abstract set");
+            *slot_mut(&mut self.items, self.n) = Some(t);
+            self.n += 1;
             true
         }
     }
     pub fn remove(&mut self, t: &T) -> bool {
-        let mut i = 0;
-        while i < self.items.len() {
-            if &self.items[i] == t {
-                self.items.remove(i);
-                return true;
+        match self.find(t) {
+            Some(i) => {
+                remove_at(&mut self.items, i, self.n);
+                self.n -= 1;
+                true
             }
-            i += 1;
+            None => false,
         }
-        false
     }
-    pub fn iter(&self) -> std::slice::Iter<'_, T> {
-        self.items.iter()
+}
+pub struct SetIntoIter<T> {
+    items: [Option<T>; CAP],
+    i: usize,
+}
+impl<T> Iterator for SetIntoIter<T> {
+    type Item = T;
+    fn next(&mut self) -> Option<T> {
+        while self.i < CAP {
+            let j = self.i;
+            self.i += 1;
+            if let Some(t) = slot_mut(&mut self.items, j).take() {
+                return Some(t);
+            }
+        }
+        None
     }
 }
 impl<T: PartialEq> Extend<T> for HashSet<T> {
@@ -363,8 +455,8 @@ impl<T: PartialEq> Extend<T> for HashSet<T> {
 }
 impl<T> IntoIterator for HashSet<T> {
     type Item = T;
-    type IntoIter = std::vec::IntoIter<T>;
-    fn into_iter(self) -> std::vec::IntoIter<T> {
-        self.items.into_iter()
+    type IntoIter = SetIntoIter<T>;
+    fn into_iter(self) -> SetIntoIter<T> {
+        SetIntoIter { items: self.items, i: 0 }
     }
 }
